@@ -8,7 +8,9 @@ package redis
 
 import (
 	"context"
+	"crypto/tls"
 	"encoding/json"
+	"io"
 	"strconv"
 	"testing"
 	"time"
@@ -26,6 +28,8 @@ type verifOp struct {
 	M    string         `json:"m"`
 	W    int            `json:"w"`    // which wrapper / address (several-address histories)
 	Form string         `json:"form"` // ctx | plain | canceled | deadline
+	Slot int            `json:"slot"` // blocking node of the address (#bopen, #bclose, BLPop family)
+	Alt  bool           `json:"alt"`  // through the second *Redis of the same address
 	A    c12raw.C12Args `json:"a"`
 }
 
@@ -34,6 +38,7 @@ type verifCase struct {
 	Seed int       `json:"seed"`
 	Ops  []verifOp `json:"ops"`
 	N    int       `json:"n"`
+	Opts verifOpts `json:"opts"`
 }
 
 // verifBrk records what the wrapper tells its breaker, and delegates to the real one.
@@ -750,26 +755,87 @@ func verifCtx(form string) (context.Context, context.CancelFunc) {
 // verifDiff: c.N (default 1) addresses; wrapper i talks to server sw[i], a raw go-redis client to its twin sr[i].
 // The wrappers' clients are created in index order.  "#restart" closes and restarts both servers of an address
 // (data kept, pooled connections dead), "#ff" lets time pass, "#mark" snapshots the wrapper-side keyspaces.
+// verifOpts: how the wrapper (and, with the same arguments, the raw go-redis twin) is configured, and what
+// the servers enforce.
+type verifOpts struct {
+	Cluster bool   `json:"cluster"` // WithCluster()
+	Pass    string `json:"pass"`    // WithPass(pass) when non-empty
+	TLS     bool   `json:"tls"`     // WithTLS()
+	SPass   string `json:"spass"`   // servers: RequireAuth(spass) when non-empty
+	STLS    bool   `json:"stls"`    // servers: TLS listener
+	Via     string `json:"via"`     // "" : New(addr, options...) ; "config": Config{...}.NewRedis()
+}
+
+func (o verifOpts) server() (*miniredis.Miniredis, error) {
+	return c12raw.C12RunServer(o.STLS, o.SPass)
+}
+
+func (o verifOpts) wrapper(addr string) *Redis {
+	if o.Via == "config" {
+		typ := NodeType
+		if o.Cluster {
+			typ = ClusterType
+		}
+		return Config{Host: addr, Type: typ, Pass: o.Pass, Tls: o.TLS}.NewRedis()
+	}
+	var opts []Option
+	if o.TLS {
+		opts = append(opts, WithTLS())
+	}
+	if o.Pass != "" {
+		opts = append(opts, WithPass(o.Pass))
+	}
+	if o.Cluster {
+		opts = append(opts, WithCluster())
+	}
+	return New(addr, opts...)
+}
+
+// raw go-redis client configured with the same arguments (poolSize 0: library default; 1: a dedicated
+// connection, as for blocking use)
+func (o verifOpts) raw(addr string, poolSize int) red.UniversalClient {
+	var tc *tls.Config
+	if o.TLS {
+		tc = &tls.Config{InsecureSkipVerify: true}
+	}
+	if o.Cluster {
+		return red.NewClusterClient(&red.ClusterOptions{Addrs: []string{addr}, Password: o.Pass, MaxRetries: maxRetries,
+			TLSConfig: tc, PoolSize: poolSize})
+	}
+	return red.NewClient(&red.Options{Addr: addr, Password: o.Pass, DB: defaultDatabase, MaxRetries: maxRetries,
+		TLSConfig: tc, PoolSize: poolSize})
+}
+
+const verifSlots = 3 // blocking nodes per address
+
+// verifDiff: c.N (default 1) addresses; wrapper i talks to server sw[i], a raw go-redis client configured with
+// the same arguments to its twin sr[i].  The wrappers' clients are created in index order.
+// "#restart" closes and restarts both servers of an address (data kept, pooled connections dead), "#ff" lets
+// time pass, "#mark" snapshots the wrapper-side keyspaces, "#bopen"/"#bclose" create / close blocking node
+// `slot` of an address (CreateBlockingNode; a dedicated raw client on the twin), op.Alt routes a command
+// through a SECOND *Redis created for the same address.
 func verifDiff(c verifCase) any {
 	n := c.N
 	if n <= 0 {
 		n = 1
 	}
+	o := c.Opts
 	clientManager = syncx.NewResourceManager() // ports are reused across cases: never inherit a cached client
-	GetScriptCache().Store(make(Map))          // the script cache is process-wide: start every case empty
+	clusterManager = syncx.NewResourceManager()
+	GetScriptCache().Store(make(Map)) // the script cache is process-wide: start every case empty
 	var sw, sr []*miniredis.Miniredis
-	var ws []*Redis
-	var brks []*verifBrk
-	var raws []*red.Client
-	nodes := make([]ClosableNode, n)
-	rawNodes := make([]*red.Client, n)
+	var ws, alts []*Redis
+	var brks, altBrks []*verifBrk
+	var raws []red.UniversalClient
+	nodes := make([][verifSlots]ClosableNode, n)
+	rawNodes := make([][verifSlots]red.UniversalClient, n)
 	for i := 0; i < n; i++ {
-		a, err := miniredis.Run()
+		a, err := o.server()
 		if err != nil {
 			return map[string]any{"error": err.Error()}
 		}
 		defer a.Close()
-		b, err := miniredis.Run()
+		b, err := o.server()
 		if err != nil {
 			return map[string]any{"error": err.Error()}
 		}
@@ -778,26 +844,34 @@ func verifDiff(c verifCase) any {
 			s.Seed(c.Seed + i)
 			s.SetTime(verifEpoch)
 		}
-		w := New(a.Addr())
+		w := o.wrapper(a.Addr())
 		brk := &verifBrk{inner: w.brk, pass: true}
 		w.brk = brk
 		w.Ping() // creates the client of this address now: clients exist in index order
-		raw := red.NewClient(&red.Options{Addr: b.Addr(), DB: defaultDatabase, MaxRetries: maxRetries})
+		w2 := o.wrapper(a.Addr())
+		brk2 := &verifBrk{inner: w2.brk, pass: true}
+		w2.brk = brk2
+		raw := o.raw(b.Addr(), 0)
 		defer raw.Close()
 		defer func() {
-			if cl, err := getClient(w); err == nil {
-				_ = cl.Close()
+			if node, err := getRedis(w); err == nil {
+				if cl, ok := node.(io.Closer); ok {
+					_ = cl.Close()
+				}
 			}
 		}()
 		sw, sr, ws, brks, raws = append(sw, a), append(sr, b), append(ws, w), append(brks, brk), append(raws, raw)
+		alts, altBrks = append(alts, w2), append(altBrks, brk2)
 	}
 	defer func() {
 		for i := range nodes {
-			if nodes[i] != nil {
-				nodes[i].Close()
-			}
-			if rawNodes[i] != nil {
-				rawNodes[i].Close()
+			for j := 0; j < verifSlots; j++ {
+				if nodes[i][j] != nil {
+					nodes[i][j].Close()
+				}
+				if rawNodes[i][j] != nil {
+					rawNodes[i][j].Close()
+				}
 			}
 		}
 	}()
@@ -822,6 +896,10 @@ func verifDiff(c verifCase) any {
 		if i < 0 || i >= n {
 			i = 0
 		}
+		slot := op.Slot
+		if slot < 0 || slot >= verifSlots {
+			slot = 0
+		}
 		switch op.M {
 		case "#ff": // time passes on every server
 			d := time.Duration(op.A.I(0)) * time.Second
@@ -833,8 +911,7 @@ func verifDiff(c verifCase) any {
 			continue
 		case "#restart":
 			for _, s := range []*miniredis.Miniredis{sw[i], sr[i]} {
-				s.Close()
-				if err := s.Restart(); err != nil {
+				if err := c12raw.C12Restart(s, o.STLS); err != nil {
 					return map[string]any{"error": "restart: " + err.Error()}
 				}
 			}
@@ -845,26 +922,47 @@ func verifDiff(c verifCase) any {
 			mark = dump(sw)
 			steps = append(steps, map[string]any{"skip": "mark"})
 			continue
+		case "#bopen":
+			if nodes[i][slot] == nil {
+				node, err := CreateBlockingNode(ws[i])
+				if err != nil {
+					return map[string]any{"error": "CreateBlockingNode: " + err.Error()}
+				}
+				nodes[i][slot] = node
+				rawNodes[i][slot] = o.raw(sr[i].Addr(), 1)
+			}
+			steps = append(steps, map[string]any{"skip": "bopen"})
+			continue
+		case "#bclose":
+			if nodes[i][slot] != nil {
+				nodes[i][slot].Close()
+				rawNodes[i][slot].Close()
+				nodes[i][slot], rawNodes[i][slot] = nil, nil
+			}
+			steps = append(steps, map[string]any{"skip": "bclose"})
+			continue
 		}
 		w, brk := ws[i], brks[i]
+		if op.Alt {
+			w, brk = alts[i], altBrks[i]
+		}
 		ctx, cancel := verifCtx(op.Form)
 		dead := op.Form == "canceled" || op.Form == "deadline"
 		var rawc red.Cmdable = raws[i]
+		var node Node
 		if len(op.M) > 5 && op.M[:5] == "BLPop" {
-			// deterministic subset of the blocking commands: an element is there, or the context is dead anyway
+			// deterministic subset of the blocking commands: the node is open, and an element is there or the
+			// context is dead anyway
 			k := op.A.S(len(op.A) - 1)
 			lw, _ := sw[i].List(k)
 			lr, _ := sr[i].List(k)
-			if ((len(lw) == 0 || len(lr) == 0) && !dead) || restarted[i] {
+			if ((len(lw) == 0 || len(lr) == 0) && !dead) || restarted[i] || nodes[i][slot] == nil {
 				steps = append(steps, map[string]any{"skip": "blocking"})
 				cancel()
 				continue
 			}
-			if nodes[i] == nil {
-				nodes[i], _ = CreateBlockingNode(w)
-				rawNodes[i] = red.NewClient(&red.Options{Addr: sr[i].Addr(), PoolSize: 1})
-			}
-			rawc = rawNodes[i]
+			node = nodes[i][slot]
+			rawc = rawNodes[i][slot]
 		}
 		brk.reset()
 		var wv, rv any
@@ -887,7 +985,7 @@ func verifDiff(c verifCase) any {
 			}
 			rv, re, rx, _ = c12raw.C12Raw(rawc, ctx, "EvalCtx", op.A)
 		} else {
-			wv, we, wx, ok = verifWrap(w, nodes[i], ctx, op.Form == "plain", op.M, op.A)
+			wv, we, wx, ok = verifWrap(w, node, ctx, op.Form == "plain", op.M, op.A)
 			if !ok {
 				steps = append(steps, map[string]any{"skip": "unknown method " + op.M})
 				cancel()
@@ -908,6 +1006,43 @@ func verifDiff(c verifCase) any {
 		out["dump_w0"] = mark
 	}
 	return out
+}
+
+// verifRuns: per-command breaker acceptance with the REAL breaker.  For every operation of the case: a fresh
+// *Redis (own breaker), the operation c.N times in a row (absent keys: redis.Nil; form "canceled": a cancelled
+// context), then a probe command on the same handle.
+func verifRuns(c verifCase) any {
+	s, err := miniredis.Run()
+	if err != nil {
+		return map[string]any{"error": err.Error()}
+	}
+	defer s.Close()
+	clientManager = syncx.NewResourceManager()
+	runs := []any{}
+	for _, op := range c.Ops {
+		w := New(s.Addr())
+		brk := &verifBrk{inner: w.brk}
+		w.brk = brk
+		run := []any{}
+		for k := 0; k < c.N; k++ {
+			ctx, cancel := verifCtx(op.Form)
+			brk.reset()
+			_, err, _, ok := verifWrap(w, nil, ctx, false, op.M, op.A)
+			cancel()
+			if !ok {
+				return map[string]any{"error": "unknown method " + op.M}
+			}
+			run = append(run, []any{c12raw.C12Err(err), brk.told()})
+		}
+		brk.reset()
+		err := w.Set("verif-probe", "1")
+		run = append(run, []any{c12raw.C12Err(err), brk.told()})
+		runs = append(runs, run)
+	}
+	if cl, err := getClient(New(s.Addr())); err == nil {
+		_ = cl.Close()
+	}
+	return map[string]any{"runs": runs}
 }
 
 // verifSha: a stream of SetSha / GetSha calls on the process-wide script cache (started empty).
@@ -999,6 +1134,8 @@ func TestVerifDriver(t *testing.T) {
 			return verifBreaker(c)
 		case "sha":
 			return verifSha(c)
+		case "runs":
+			return verifRuns(c)
 		}
 		return map[string]any{"error": "unknown kind " + c.Kind}
 	})
